@@ -155,8 +155,32 @@ func (g *Gen) call(st *State, site ssa.Instruction, c *ssa.CallCommon, rt types.
 		if fs := g.W.specFor(static); fs != nil {
 			return g.applyFuncSpec(st, fs, static, args, rt)
 		}
-		if fv, ok := g.value(st, c.Value).(FuncV); ok && len(fv.Binds) > 0 {
-			_ = fv
+		inline := static.Parent() != nil && len(static.Blocks) > 0
+		if g.rootSpec() != nil {
+			for _, n := range splitList(g.rootSpec().Options["inline"]) {
+				for _, k := range keys {
+					if n == k {
+						inline = true
+					}
+				}
+			}
+		}
+		if inline && len(static.Blocks) > 0 {
+			var binds []Val
+			if mc, ok := c.Value.(*ssa.MakeClosure); ok {
+				for _, b := range mc.Bindings {
+					binds = append(binds, g.value(st, b))
+				}
+			}
+			return g.inlineCall(st, static, args, binds, rt)
+		}
+	}
+	// a closure held in a local variable: the FuncV carries the function and its bindings
+	if static == nil && !c.IsInvoke() {
+		if fv, ok := g.value(st, c.Value).(FuncV); ok && fv.Fn != nil && len(fv.Fn.Blocks) > 0 && fv.Fn.Parent() != nil {
+			if fs := g.W.specFor(fv.Fn); fs == nil {
+				return g.inlineCall(st, fv.Fn, args, fv.Binds, rt)
+			}
 		}
 	}
 	// 3. exits
@@ -199,9 +223,7 @@ func (g *Gen) assumeFreshResult(st *State, v Val, rt types.Type) {
 		old := st.ac
 		st.ac = g.fresh("ac", "Int")
 		g.assume(st, "(<= "+old+" "+st.ac+")")
-		if g.curBlock != nil {
-			g.allocLog[g.curBlock] = true
-		}
+		g.noteAlloc()
 	}
 	g.assume(st, g.allocatedInv(st, v, rt))
 }
@@ -216,10 +238,7 @@ func (g *Gen) havocAll(st *State) {
 	old := st.ac
 	st.ac = g.fresh("ac", "Int")
 	g.assume(st, "(<= "+old+" "+st.ac+")")
-	if g.curBlock != nil {
-		g.writeAll[g.curBlock] = true
-		g.allocLog[g.curBlock] = true
-	}
+	g.noteWriteAll()
 }
 
 func (g *Gen) applyCalleeSpec(st *State, cs *CalleeSpec, c *ssa.CallCommon, recv Val, args []Val, rt types.Type) Val {
@@ -360,9 +379,7 @@ func (g *Gen) applyContract(st *State, a contractApp) Val {
 		old := st.ac
 		st.ac = g.fresh("ac", "Int")
 		g.assume(st, "(<= "+old+" "+st.ac+")")
-		if g.curBlock != nil {
-			g.allocLog[g.curBlock] = true
-		}
+		g.noteAlloc()
 	case a.havocAll:
 		g.havocAll(st)
 	}
@@ -414,15 +431,14 @@ func (g *Gen) applyContract(st *State, a contractApp) Val {
 }
 
 func (g *Gen) noteGhostWrite(n string) {
-	if g.curBlock == nil {
-		return
+	for _, b := range g.logBlocks() {
+		m := g.ghostLog[b]
+		if m == nil {
+			m = map[string]bool{}
+			g.ghostLog[b] = m
+		}
+		m[n] = true
 	}
-	m := g.ghostLog[g.curBlock]
-	if m == nil {
-		m = map[string]bool{}
-		g.ghostLog[g.curBlock] = m
-	}
-	m[n] = true
 }
 
 // frameItems turns a modifies item into heap locations.
@@ -735,3 +751,5 @@ func sortedKeys(m map[string]bool) []string {
 	sort.Strings(out)
 	return out
 }
+
+func (g *Gen) rootSpec() *FuncSpec { return g.W.specFor(g.rootFn) }
